@@ -67,6 +67,20 @@ func c05R1(p *Prog, r *Report) {
 					assigned[k] = FuncName(fn)
 				}
 			}
+			// a nested literal (W{Info: Info{A: a}}) stores the inner fields in place: the
+			// struct-valued field they belong to is assigned too
+			for fa, isFA := st.Addr.(*ssa.FieldAddr); isFA; {
+				outer, isOuter := fa.X.(*ssa.FieldAddr)
+				if !isOuter {
+					break
+				}
+				if k, ok := fieldKeyOfAddr(outer); ok {
+					if _, had := assigned[k]; !had {
+						assigned[k] = FuncName(fn)
+					}
+				}
+				fa = outer
+			}
 		})
 	}
 	writers := []struct{ pkg, typ string }{{"ljh", "Writer"}, {"ljh", "Writer3"}, {"off", "Writer"}}
@@ -137,9 +151,64 @@ func c05R1(p *Prog, r *Report) {
 // ---- R2 -----------------------------------------------------------------------------------
 
 // describe renders the provenance of an installer argument at the call site.
+// c05Subst: parameters of a helper being described, in the caller's terms.
+var c05Subst = map[ssa.Value]string{}
+
+// structFieldFromHelper: fa addresses field k of a local struct variable that was filled, once,
+// by the result of a one-block module helper returning a struct literal: the value the helper
+// puts into field k, described with the helper's parameters replaced by the arguments.
+func structFieldFromHelper(fa *ssa.FieldAddr, l *RangeLoop, depth int) (string, bool) {
+	cell, ok := fa.X.(*ssa.Alloc)
+	if !ok {
+		return "", false
+	}
+	cv, ok := cellValue(cell)
+	if !ok {
+		return "", false
+	}
+	call, ok := cv.(*ssa.Call)
+	if !ok {
+		return "", false
+	}
+	h := call.Call.StaticCallee()
+	if !isModuleFn(h) || len(h.Blocks) != 1 || len(h.Params) != len(call.Call.Args) {
+		return "", false
+	}
+	ld, ok := singleReturn(h).(*ssa.UnOp)
+	if !ok {
+		return "", false
+	}
+	lit, ok := ld.X.(*ssa.Alloc)
+	if !ok {
+		return "", false
+	}
+	for _, ref := range *lit.Referrers() {
+		fa2, ok := ref.(*ssa.FieldAddr)
+		if !ok || fa2.Field != fa.Field {
+			continue
+		}
+		for _, r2 := range *fa2.Referrers() {
+			if st, ok := r2.(*ssa.Store); ok && st.Addr == ssa.Value(fa2) {
+				for i, prm := range h.Params {
+					c05Subst[prm] = c05Describe(call.Call.Args[i], l, depth+1)
+				}
+				d := c05Describe(st.Val, l, depth+1)
+				for _, prm := range h.Params {
+					delete(c05Subst, prm)
+				}
+				return d, true
+			}
+		}
+	}
+	return "", false
+}
+
 func c05Describe(v ssa.Value, l *RangeLoop, depth int) string {
 	if depth > 6 {
 		return "?"
+	}
+	if d, ok := c05Subst[v]; ok {
+		return d
 	}
 	switch x := v.(type) {
 	case *ssa.Const:
@@ -169,6 +238,9 @@ func c05Describe(v ssa.Value, l *RangeLoop, depth int) string {
 		}
 		switch a := x.X.(type) {
 		case *ssa.FieldAddr:
+			if d, ok := structFieldFromHelper(a, l, depth); ok {
+				return d
+			}
 			st := derefStruct(a.X.Type())
 			base := c05Describe(a.X, l, depth+1)
 			if st.Field(a.Field).Embedded() {
